@@ -48,7 +48,7 @@ def make_data(shape, dtype):
             a[n // 2] = np.nan
     else:
         a = a.astype(dtype)
-    return np.ascontiguousarray(a.reshape(shape))
+    return a.reshape(shape).copy()
 
 
 def full_mask(shape, seed, p):
